@@ -69,7 +69,7 @@ def image_as_tar_expectation(summary, no_xattr=False, no_links=False):
         t, mode, uid, gid, mtime, extra, xa, ino, nlink = summary[path]
         if t == "sock":
             continue
-        if any(summary.get(path[:i], ("",))[0] == "sock" for i in range(len(path))):
+        if any(summary.get(path[:i], ("",))[0] == "sock" for i in range(len(path)) if path[i:i + 1] == b"/"):
             continue
         if not no_links and t != "dir" and ino in first:
             links.append((path, first[ino]))
@@ -148,8 +148,84 @@ def gnu_tar_extract(tarpath, dest):
     return p.returncode, p.stderr, pipelines.snapshot_dir(dest, True)
 
 
+def work_from_gensquashfs(bdir, seed, prof):
+    """'sqfs2tar on any image': images that did not come from a tar archive - made by gensquashfs from a pack file, with sockets (long
+    names, xattrs, between other entries) that sqfs2tar has to skip without leaving a trace in the archive"""
+    res = {"runs": 0, "viol": [], "err": None, "case": None, "stages": {}, "dialect": "gensquashfs-image", "unrep": 0, "conv": 0}
+    r = rng(seed, "c04-gen")
+
+    def V(clause, detail, stage):
+        res["viol"].append({"clause": clause, "detail": detail[:500], "stage": stage})
+
+    try:
+        with Scratch("c04g") as s:
+            ents = treegen.gen_tree(r, bs=4096, nfiles=prof.get("nfiles", 4), ndirs=prof.get("ndirs", 2), hostile=False, specials=True, xattrs=True, hardlinks=True)
+            dirs = [b""] + [e.path + b"/" for e in ents if e.type == treegen.DIR]
+            xa = {b"user.sock": b"attribute of a socket", b"user.long": b"x" * 300}
+            for i in range(r.choice([1, 2, 3])):
+                d = r.choice(dirs)
+                nm = bytes([r.choice(b"amz")]) * r.choice([5, 99, 100, 101, 120, 200])
+                ents.append(treegen.Entry(d + nm + b".sock", treegen.SOCK, mode=0o600, uid=r.choice([0, 5]), gid=0, mtime=5, xattrs=dict(xa) if r.random() < 0.6 else {}))
+                ents.append(treegen.Entry(d + nm + b".sock.after", r.choice([treegen.FILE, treegen.FIFO]), mode=0o644, uid=0, gid=0, mtime=6,
+                                          content=b"behind the socket %d" % i))
+                ents[-1].content = ents[-1].content if ents[-1].type == treegen.FILE else None
+            seen = set()
+            ents = [e for e in ents if treegen.packfile_representable(e) and not (e.path in seen or seen.add(e.path))]
+            treegen.emit_packfile(ents, s)
+            treegen.emit_xattr_file(ents, s)
+            res["case"] = {"seed": seed, "profile": prof, "dialect": "gensquashfs-image", "members": [e.brief() for e in ents[:6] if e.mode is not None], "n": len(ents)}
+            case = pipelines.Case(seed, "gen-packfile")
+            case.tool = "gensquashfs"
+            case.out_image = "img1.sqfs"
+            case.outputs = {"image": "img1.sqfs"}
+            case.argv = ["-c", r.choice(["gzip", "xz", "lz4", "zstd"]), "-b", "4096", "-q", "-F", "pack.txt", "-D", ".", "-A", "xattr.txt", "img1.sqfs"]
+            o = pipelines.run_case(bdir, case, s, "seed 1\nsched rr\n", "plain", timeout=180, cpu=60)
+            res["conv"] += 1
+            if o.rc != 0:
+                res["err"] = "gensquashfs refused the pack file: %s" % o.stderr[-200:]
+                return res
+            img = sqfsdec.decode(os.path.join(s, "img1.sqfs"))
+            if not img.ok():
+                res["err"] = "image undecodable: %s" % img.errors[0]
+                return res
+            summ1 = sqfsdec.tree_summary(img)
+            res["sockets"] = sum(1 for v in summ1.values() if v[0] == "sock")
+            for k in range(2):
+                c2 = pipelines.Case(seed, "sqfs2tar")
+                c2.tool = "sqfs2tar"
+                c2.outputs = {"stdout": None}
+                no_x2 = k == 1 and r.random() < 0.5
+                no_l2 = k == 1 and r.random() < 0.5
+                c2.argv = (["-X"] if no_x2 else []) + (["-L"] if no_l2 else []) + ["img1.sqfs"]
+                o2 = pipelines.run_case(bdir, c2, s, io_plan(r), "asan" if k else "plain", timeout=180, cpu=60)
+                res["conv"] += 1
+                if o2.rc != 0:
+                    V("sqfs2tar-failed", "%s: %s" % (o2.verdict, o2.stderr[-300:].decode(errors="replace")), 2)
+                    return res
+                shutil.copyfile(os.path.join(s, ".stdout"), os.path.join(s, "tar1.tar"))
+                texp, tlinks = image_as_tar_expectation(summ1, no_xattr=no_x2, no_links=no_l2)
+                try:
+                    got, glinks = parse_tar(os.path.join(s, "tar1.tar"))
+                except Exception as e:
+                    V("sqfs2tar-output-unreadable-by-tarfile", "%s: %s" % (type(e).__name__, e), 2)
+                    return res
+                d = dict_diff(texp, got, "tarfile")
+                if not d and sorted(tlinks) != sorted(glinks):
+                    d = ["tarfile: hard links expected %r got %r" % (sorted(tlinks)[:3], sorted(glinks)[:3])]
+                if d:
+                    V("sqfs2tar-differs:gensquashfs-image:" + re.sub(r"b'.*?'|b\".*?\"|\d+", "_", d[0])[:50], "; ".join(d[:4]), 2)
+                    return res
+            res["stages"]["sqfs2tar-on-gensquashfs-image"] = 1
+    except Exception as e:
+        import traceback
+        res["err"] = "%s: %s %s" % (type(e).__name__, e, traceback.format_exc()[-400:])
+    return res
+
+
 def work(a):
     bdir, seed, prof = a
+    if prof.get("from_gensquashfs"):
+        return work_from_gensquashfs(bdir, seed, prof)
     res = {"conv": 0, "viol": [], "err": None, "case": None, "dialect": None, "stages": {}, "unrep": 0}
     r = rng(seed, "c04")
 
@@ -160,7 +236,7 @@ def work(a):
         with Scratch("c04") as s:
             model = tarmodel.gen_archive_model(r, nfiles=prof.get("nfiles", 6), ndirs=prof.get("ndirs", 2), hostile=prof.get("hostile", False),
                                                xattrs=prof.get("xattrs", False), hardlinks=prof.get("hardlinks", True), sparse=prof.get("sparse", True),
-                                               big=prof.get("big", False))
+                                               big=prof.get("big", False), link_specials=prof.get("link_specials", False))
             dialect = prof.get("dialect") or tarmodel.dialect_for(r, model)
             data, kept = tarmodel.emit_archive(model, dialect, r)
             res["dialect"] = dialect
@@ -364,7 +440,8 @@ def work(a):
 PROFILES = [{"nfiles": 6, "ndirs": 2}, {"nfiles": 6, "ndirs": 3, "xattrs": True}, {"nfiles": 5, "ndirs": 2, "hostile": True},
             {"nfiles": 8, "ndirs": 2, "big": True}, {"nfiles": 4, "ndirs": 1, "dialect": "v7", "sparse": False},
             {"nfiles": 5, "ndirs": 2, "dialect": "ustar", "sparse": False}, {"nfiles": 5, "ndirs": 2, "dialect": "gnu"},
-            {"nfiles": 5, "ndirs": 2, "dialect": "pax", "xattrs": True}]
+            {"nfiles": 5, "ndirs": 2, "dialect": "pax", "xattrs": True}, {"nfiles": 3, "ndirs": 2, "link_specials": True, "sparse": False},
+            {"nfiles": 4, "ndirs": 2, "from_gensquashfs": True}]
 
 
 def tar_semantic(path):
